@@ -3,16 +3,24 @@ import Driver.VMDrv
 import Driver.Json
 import Driver.Sym
 import Driver.Conv
+import Driver.CompileDrv
 open Driver
 
+/-- a trailing field starting with '#' carries human-readable context and is ignored -/
+def stripComment (fs : List String) : List String :=
+  match fs.reverse with
+  | c :: rest => if c.startsWith "#" && rest.length > 1 then rest.reverse else fs
+  | [] => fs
+
 def dispatch (line : String) : String :=
-  match line.splitOn "\t" with
+  match stripComment (line.splitOn "\t") with
   | "ops" :: args => handleOps args
   | "vm" :: args => handleVM args
   | "json" :: args => handleJson args
   | "symops" :: args => handleSymops args
   | "disable" :: args => handleDisable args
   | "conv" :: args => handleConv args
+  | "compile" :: args => handleCompile args
   | _ => "bad-op"
 
 partial def loop (h : IO.FS.Stream) (out : IO.FS.Stream) : IO Unit := do
